@@ -33,6 +33,8 @@ def build(rng, tier):
                              kkinds=[rng.pick(["str", "f64", "cat"]), rng.pick(["str", "f64"])], seed=rng.randrange(10 ** 6))
                     if by in ("col", "cols", "mixed") and not series and meth != "iter" and rng.random() < 0.2:
                         c["select"], c["kkinds"][0] = "withkey", "f64"      # the selection names the key column again
+                    if by in ("col", "array", "level") and n >= 2 and rng.random() < 0.2 and c["kkinds"][0] != "cat" and not (c["kkinds"][0] == "str" and k1[0] == NULL):
+                        c["T"] = 2          # the facade's grouper factorizes the key chunk-wise
                     out.append(c)
     return out
 
